@@ -6,6 +6,18 @@ props = [json.loads(l) for l in open(os.path.join(HERE, "properties.jsonl"))]
 
 # id -> (technique, level text, level note, design ref)
 CHECKS = {
+ "C16": ("proptest stateful event sequences + exhaustive short sequences against the real Service with a token model of in-flight fetches",
+         "Exploration: connect/disconnect/reconnect, fetch commands, refs announcements, ticks and (late) worker results drive the real Service; each Io::Fetch is a token in a harness model that applies the wire's forwarding rule. After every event: <=1 in-flight fetch per repository, per-peer limit, queue bound, no panic, and a delivered result may only complete its own fetch. All sequences of depth 3 (quick) / 5 (thorough) over a 10-event alphabet are enumerated; a directed late-result family is always run. One residual defect is a known finding, one was fixed.",
+         "The wire layer is modelled from wire/protocol.rs (results forwarded iff the peer is connected; fetch requests for a peer that just went down are dropped), not executed; connection crossing is not generated.",
+         "DESIGN.md C16"),
+ "C17": ("proptest timelines + exhaustive delta patterns vs exact rational bound",
+         "Exploration: request timelines with bursts, idle periods and backward clock steps over capacities, fractional rates and host kinds; for every contiguous window of a host's requests admitted <= floor(capacity + rate * whole seconds) in exact integer arithmetic; bypassed nodes and non-routable IPv4 are never limited. All delta patterns of length 6 (quick) / 9 (thorough) over 5 deltas x 4 capacities x 4 rates are enumerated.",
+         "Window length of a non-monotonic timeline is max t - min t over the window; IPv6 local addresses being limited is counted, not failed (code documents IPv6 routability as unsupported).",
+         "DESIGN.md C17"),
+ "C22": ("exhaustive enumeration of all triples over small reachable-state domains + proptest larger values vs semilattice laws and an LWW write-set model",
+         "Exploration: 16 CRDT instantiations; every state reachable by <=3 operations over small clock/value/key domains is enumerated and all triples (thorough) / all triples of the small types and all pairs + sampled triples of the map types (quick) are checked for idempotence, commutativity, associativity; LWW structures additionally against an independent write-set model (greatest clock wins, insert over remove, equal clocks join).",
+         "Immutable is out of scope (documented panic). Exhaustive only over the enumerated sub-spaces.",
+         "DESIGN.md C22"),
  "C10": ("proptest stateful event sequences against the real Service + history/store-delta oracle",
          "Exploration: generated delivery/redelivery/tick/connect/subscribe sequences drive the real radicle-node Service (sqlite database, mock storage); after every event the gossip-store delta and every outgoing write are judged against the statement (valid signature, <= 1h ahead, strictly newer, known announcer, never echoed to a deliverer or the announcer).",
          "Trusts the harness model of 'who delivered what' (a delivery counts once the node processed it as gossip), MockSigner keys, and the emulation of the runtime reacting to Io::Disconnect. Timestamp 0 is left to C13.",
